@@ -5,3 +5,4 @@ import posix_common
 PAIRS += posix_common.pairs()
 import page_common as _pc
 PAIRS += _pc.malloc_generic_pairs()      # generic path: retry once after a forced collect, NULL only when the page search failed twice; periodic drain of delayed frees
+PAIRS += [_pc.find_page_pair()]      # the page search entry: above MI_MAX_ALLOC_SIZE => NULL + EOVERFLOW, neither allocator reached
